@@ -695,6 +695,5 @@ theorem lnxUp_sim (c : Board.Case) (l : LnxCfg) (b : BS) (m : Mon) (h : LOut c l
         simp only [Option.bind, steps, hstep]
       · show accept c { m2 with ph := .lnxUp } b2.st.now none = true
         simp [accept, hout1.cfg, hlast]
-        rfl
 
 end Board
